@@ -116,7 +116,7 @@ static inline int hprobe_below(int n) { unsigned x = v_nondet_u32(); v_assume(n 
 
 // --------------------------------------------------------------------------- bases, built with the hexahedral kernel
 static inline FH hquad(HexK &m, int a, int b, int c, int d) { return m.add_face(vec4(VH(a), VH(b), VH(c), VH(d))); }
-enum HexBase { HB_HEX = 0, HB_HEX2 = 1, HB_SHEET = 2, HB_HEX2_VERTS = 3, N_HEXBASES = 4 };
+enum HexBase { HB_HEX = 0, HB_HEX2 = 1, HB_SHEET = 2, HB_HEX2_VERTS = 3, HB_HEX2_FAST = 4, N_HEXBASES = 5 };
 
 // the six faces of the B_HEX layout of mesh_common.h on vertices 0..7 (F0 bottom, F1 top, F2..F5 the sides)
 static void hex_faces(HexK &m) {
@@ -130,6 +130,7 @@ static inline std::vector<HFH> hex_list0() { return vec6(hf(FH(0), 1), hf(FH(1),
 static void hex2_faces(HexK &m) {
   hquad(m, 11, 10, 9, 8); hquad(m, 5, 4, 8, 9); hquad(m, 6, 5, 9, 10); hquad(m, 7, 6, 10, 11); hquad(m, 4, 7, 11, 8);
 }
+static inline std::vector<HFH> hex_list1_ordered() { return vec6(hf(FH(1), 0), hf(FH(6), 1), hf(FH(10), 1), hf(FH(8), 1), hf(FH(9), 1), hf(FH(7), 1)); }
 static inline std::vector<HFH> hex_list1() { return vec6(hf(FH(1), 0), hf(FH(6), 1), hf(FH(7), 1), hf(FH(8), 1), hf(FH(9), 1), hf(FH(10), 1)); }
 
 static inline std::vector<VH> vec8(int a, int b, int c, int d, int e, int f, int g, int h) {
@@ -149,6 +150,12 @@ static void build_hex_base(HexK &m, unsigned b) {
     m.add_cell(hex_list0(), true);
     hex2_faces(m);
     m.add_cell(hex_list1(), true);
+    break;
+  case HB_HEX2_FAST:   // same mesh as HB_HEX2 from lists already in convention order, no topology check (cheap context for other subjects)
+    m.add_n_vertices(12); hex_faces(m);
+    m.add_cell(hex_list0_ordered(), false);
+    hex2_faces(m);
+    m.add_cell(hex_list1_ordered(), false);
     break;
   case HB_HEX2_VERTS:   // two hexes sharing a face, built with add_cell(8 vertices) in the documented order
     m.add_n_vertices(12);
